@@ -143,6 +143,13 @@ def rule_one_reply(ctx):
             ok = len(sends) == 1
             kind = "one reply"
         ctx.check(ok, sl.fq, f"send loop iteration: {kind}", f"{len(sends)} message(s) written on this path", "exactly one outcome")
+    # the send loop drops cancelled tasks, so a handler must not be able to end its own task cancelled (or raised):
+    # _call_and_capture_failure turns every BaseException into a failure value
+    cc = ctx.prog.func("rpc._call_and_capture_failure")
+    handlers = [h for t in ast.walk(cc.node) if isinstance(t, ast.Try) for h in t.handlers]
+    ok = len(handlers) == 1 and handlers[0].type is not None and ast.unparse(handlers[0].type) == "BaseException" and not any(isinstance(n, ast.Raise) for n in ast.walk(handlers[0])) and any(isinstance(n, ast.Return) for n in ast.walk(handlers[0]))
+    ctx.check(ok, cc.fq, "a handler ending in any BaseException (including CancelledError) still yields a reply value",
+              "a handler that ends in CancelledError ends its task cancelled; the send loop drops cancelled tasks, so that call gets no reply", "except BaseException: return failure", where=ctx.where_of(cc))
     src = _norm(ast.unparse(sl.node))
     ctx.check("await _send_stream_message(self.writer, call_id, None)" in src, sl.fq, "an unsendable result is answered with the empty-body sentinel", "client waits for ever for a reply that cannot be pickled", "sentinel")
 
@@ -206,6 +213,72 @@ def rule_peers(ctx):
     ctx.check("if not isinstance(call, RPCCall): raise RPCError" in src and "except Exception as exc: raise RPCError" in src, dr.fq, "a body that is not a call ends the connection with RPCError", "garbage bodies are executed or crash differently", "RPCError")
 
 
+def _guards_of(fn_node, target):
+    """Receiver expressions that are known not done/cancelled when ``target`` executes: tests of the enclosing
+    If statements (body side) and early exits `if X.done(): return` that precede it in the same block."""
+    parents = {}
+    for n in ast.walk(fn_node):
+        for c in ast.iter_child_nodes(n):
+            parents[c] = n
+    guards = set()
+
+    def from_test(test, positive):
+        # `not X.cancelled()` / `not X.done()` true on the positive side; `X.done()` true on the negative side
+        if isinstance(test, ast.UnaryOp) and isinstance(test.op, ast.Not):
+            from_test(test.operand, not positive)
+        elif isinstance(test, ast.BoolOp) and isinstance(test.op, ast.And) and positive:
+            for v in test.values:
+                from_test(v, True)
+        elif isinstance(test, ast.BoolOp) and isinstance(test.op, ast.Or) and not positive:
+            for v in test.values:
+                from_test(v, False)
+        elif isinstance(test, ast.Call) and isinstance(test.func, ast.Attribute) and test.func.attr in ("cancelled", "done") and not positive:
+            guards.add(ast.unparse(test.func.value))
+
+    node = target
+    while node in parents:
+        par = parents[node]
+        if isinstance(par, ast.If):
+            if node in par.body:
+                from_test(par.test, True)
+            elif node in par.orelse:
+                from_test(par.test, False)
+        # early exits before `node` in the same statement list
+        for field in ("body", "orelse", "finalbody"):
+            lst = getattr(par, field, None)
+            if isinstance(lst, list) and node in lst:
+                for prev in lst[:lst.index(node)]:
+                    if isinstance(prev, ast.If) and not prev.orelse and prev.body and isinstance(prev.body[-1], (ast.Return, ast.Raise, ast.Continue, ast.Break)):
+                        from_test(prev.test, False)
+        node = par
+    return guards
+
+
+def rule_future_typestate(ctx):
+    """R-C16-7: a future that its caller awaits unshielded may already be cancelled; completing it needs a guard."""
+    mod = ctx.prog.module("rpc")
+    n = 0
+    for fi in mod.all_funcs.values():
+        for c in calls_in(fi.node):
+            if isinstance(c.func, ast.Attribute) and c.func.attr in ("set_result", "set_exception"):
+                recv = ast.unparse(c.func.value)
+                n += 1
+                g = _guards_of(fi.node, c)
+                ctx.check(recv in g, fi.fq, f"{recv}.{c.func.attr}(...) only when {recv} is not cancelled/done",
+                          f"{recv} can have been cancelled by its awaiting caller: {c.func.attr} then raises InvalidStateError inside the receive loop, the remaining pending calls are never resolved and wait forever",
+                          f"guarded by a test on {recv}", where=ctx.where_of(fi, c))
+    if n < 2:
+        raise AnalysisError(f"only {n} future completion sites in rpc.py (2 confirmed by hand)")
+    rl = ctx.prog.func("rpc.SocketAsyncRPCClient._recv_loop")
+    fin = [s for t in ast.walk(rl.node) if isinstance(t, ast.Try) for s in t.finalbody]
+    loops = [l for s in fin for l in ast.walk(s) if isinstance(l, (ast.While, ast.For)) and "self._pending" in ast.unparse(l.test if isinstance(l, ast.While) else l.iter)]
+    ok = any(any(isinstance(c.func, ast.Attribute) and c.func.attr == "set_exception" for c in calls_in(l)) for l in loops)
+    ctx.check(ok, rl.fq, "when the receive loop ends, every pending call is failed", "pending calls are left unresolved when the connection ends: their callers wait forever", "finally: loop over self._pending with set_exception")
+    cl = ctx.prog.func("rpc.SocketAsyncRPCClient.__call__")
+    awaited = [ast.unparse(a.value) for a in ast.walk(cl.node) if isinstance(a, ast.Await)]
+    ctx.ok(cl.fq, "the caller awaits its future unshielded (cancelling the caller cancels the future)" if "future" in awaited else "the caller does not await the bare future", f"awaits: {awaited}")
+
+
 RULES = [
     Rule("R-C16-1", "exposure gate", rule_exposure, min_instances=25),
     Rule("R-C16-2", "id pairing by data flow", rule_id_pairing, min_instances=11),
@@ -213,6 +286,7 @@ RULES = [
     Rule("R-C16-4", "framing agreement", rule_framing, min_instances=8),
     Rule("R-C16-5", "failure mapping", rule_failure_mapping, min_instances=5),
     Rule("R-C16-6", "peers cannot wedge the server", rule_peers, min_instances=5),
+    Rule("R-C16-7", "pending futures are completed only when not cancelled", rule_future_typestate, min_instances=4),
 ]
 
 MUTANTS = [
@@ -222,11 +296,17 @@ MUTANTS = [
     Mutant("reply-fresh-id", "rpc.py", in_function("RPCServerConnection._recv_loop", replace_once("task.add_done_callback(partial(self._queue_reply, call_id))", "task.add_done_callback(partial(self._queue_reply, len(self._tasks)))")), ("R-C16-2",)),
     Mutant("register-after-send", "rpc.py", in_function("SocketAsyncRPCClient.__call__", lambda s: s.replace("        self._pending[call_id] = _PendingCall(call, future)\n        try:\n            await _send_stream_message(self._writer, call_id, request)\n", "        try:\n            await _send_stream_message(self._writer, call_id, request)\n            self._pending[call_id] = _PendingCall(call, future)\n") if "self._pending[call_id] = _PendingCall(call, future)" in s else None), ("R-C16-2",)),
     Mutant("sync-no-id-check", "rpc.py", in_function("SocketSyncRPCClient._recv_response", lambda s: s.replace("        if call_id != expected_call_id:", "        if False:") if "if call_id != expected_call_id:" in s else None), ("R-C16-2",)),
+    Mutant("capture-exception-only", "rpc.py", in_function("_call_and_capture_failure", replace_once("except BaseException", "except Exception")), ("R-C16-3",)),
     Mutant("double-enqueue", "rpc.py", in_function("RPCServerConnection._queue_reply", replace_once("        self._completed.put_nowait((call_id, task))\n", "        self._completed.put_nowait((call_id, task))\n        self._completed.put_nowait((call_id, task))\n")), ("R-C16-3",)),
     Mutant("little-endian-decode", "rpc.py", in_function("_decode_header", replace_once('size = int.from_bytes(header[FIELD_SIZE:], "big")', 'size = int.from_bytes(header[FIELD_SIZE:], "little")')), ("R-C16-4",)),
     Mutant("no-size-bound", "rpc.py", in_function("_decode_header", replace_once("    if size > MAX_BODY_SIZE:\n        raise RPCError(f\"RPC body size {size} exceeds the maximum of {MAX_BODY_SIZE} bytes.\")\n", "")), ("R-C16-4",)),
     Mutant("reconstruct-any-class", "rpc.py", in_function("RemoteFailure.to_exception", replace_once("issubclass(cls, UsageError)", "issubclass(cls, BaseException)")), ("R-C16-5",)),
+    Mutant("fail-pending-unguarded", "rpc.py", in_function("SocketAsyncRPCClient._recv_loop", replace_once("                if not pending.future.cancelled():\n                    pending.future.set_exception(\n                        ConnectionResetError(f\"RPC connection lost while calling {pending.call}\")\n                    )\n", "                pending.future.set_exception(\n                    ConnectionResetError(f\"RPC connection lost while calling {pending.call}\")\n                )\n")), ("R-C16-7",)),
+    Mutant("resolve-pending-unguarded", "rpc.py", in_function("SocketAsyncRPCClient._recv_loop", replace_once("                    if not pending.future.cancelled():\n                        pending.future.set_result(response)\n", "                    pending.future.set_result(response)\n")), ("R-C16-7",)),
+    Mutant("pending-not-failed", "rpc.py", in_function("SocketAsyncRPCClient._recv_loop", replace_once("                _, pending = self._pending.popitem()\n                if not pending.future.cancelled():\n                    pending.future.set_exception(\n                        ConnectionResetError(f\"RPC connection lost while calling {pending.call}\")\n                    )\n", "                self._pending.popitem()\n")), ("R-C16-7",)),
     Mutant("eof-raises", "rpc.py", in_function("_recv_stream_message", replace_once("    except (asyncio.IncompleteReadError, ConnectionError):", "    except asyncio.IncompleteReadError:")), ("R-C16-6",)),
 ]
 
-VARIANTS = []
+VARIANTS = [
+    Variant("done-guard-instead-of-cancelled", "rpc.py", in_function("SocketAsyncRPCClient._recv_loop", replace_once("                    if not pending.future.cancelled():\n                        pending.future.set_result(response)\n", "                    if pending.future.done():\n                        continue\n                    pending.future.set_result(response)\n"))),
+]
